@@ -749,8 +749,8 @@ func c19Malformed(c *Ctx) {
 // c19SetupErrors: over-long short names, defaults on booleans, duplicate names (also created by namespaces).
 func c19SetupErrors(c *Ctx) {
 	r := c.R
-	kind := []string{"short-too-long-ascii", "short-too-long-multibyte", "default-on-bool", "dup-short", "dup-long", "dup-long-via-namespace", "dup-in-nested-group", "dup-short-multibyte", "no-duplicate-across-commands", "dup-random-nesting", "dup-random-nesting", "no-dup-random-nesting", "same-untagged-struct-twice", "same-untagged-struct-twice-no-clash"}[(c.K/5)%14]
-	via := []string{"NewParser", "AddGroup", "AddCommand"}[(c.K/70)%3]
+	kind := []string{"short-too-long-ascii", "short-too-long-multibyte", "default-on-bool", "dup-short", "dup-long", "dup-long-via-namespace", "dup-in-nested-group", "dup-short-multibyte", "no-duplicate-across-commands", "dup-random-nesting", "dup-random-nesting", "no-dup-random-nesting", "same-untagged-struct-twice", "same-untagged-struct-twice-no-clash", "same-struct-two-groups"}[(c.K/5)%15]
+	via := []string{"NewParser", "AddGroup", "AddCommand"}[(c.K/75)%3]
 	str := reflect.TypeOf("")
 	mk := func(fs ...reflect.StructField) reflect.Type { return reflect.StructOf(fs) }
 	fld := func(name string, t reflect.Type, tag string) reflect.StructField {
@@ -760,6 +760,7 @@ func c19SetupErrors(c *Ctx) {
 	var want flags.ErrorType
 	wantErr := true
 	wantOptions := -1
+	wantFind := ""
 	switch kind {
 	case "short-too-long-ascii":
 		rt = mk(fld("A", str, `short:"ab" long:"alpha"`))
@@ -867,6 +868,14 @@ func c19SetupErrors(c *Ctx) {
 		}
 		rt = mk(fld("A", str, `long:"alpha"`), fld("Primary", first, ""), fld("Secondary", second, ""))
 		want = flags.ErrDuplicatedFlag
+	case "same-struct-two-groups":
+		// one struct type declares two groups (or a group and a command) of the same struct; the later one through
+		// a pointer: both are read
+		ep := mk(fld("Host", str, `long:"host"`)) // (no short name: those are not namespaced and would clash)
+		firstTag := []string{`group:"Primary" namespace:"p"`, `command:"primary"`}[r.Intn(2)]
+		rt = mk(fld("A", str, `long:"alpha"`), fld("Primary", ep, firstTag), fld("Replica", reflect.PtrTo(ep), `group:"Replica" namespace:"r"`))
+		wantErr = false
+		wantFind = "r.host"
 	case "no-duplicate-across-commands":
 		cmd := mk(fld("A", str, `short:"v" long:"verbose"`))
 		rt = mk(fld("B", str, `short:"v" long:"verbose"`), fld("C", cmd, `command:"sub"`))
@@ -881,6 +890,7 @@ func c19SetupErrors(c *Ctx) {
 	})
 	var err error
 	gotOptions := -1
+	findMissing := false
 	completionMode := via == "NewParser" && wantErr && c.K%4 == 1 && c.W.Tier != "race"
 	handlerCalls := 0
 	pi := safely(func() {
@@ -899,6 +909,9 @@ func c19SetupErrors(c *Ctx) {
 			if gs := p.Groups(); len(gs) > 0 {
 				gotOptions = len(gs[0].Options())
 			}
+			if wantFind != "" && err == nil && p.FindOptionByLongName(wantFind) == nil {
+				findMissing = true
+			}
 		case "AddGroup":
 			p := flags.NewNamedParser("app", flags.None)
 			_, err = p.AddGroup("G", "", reflect.New(rt).Interface())
@@ -915,6 +928,10 @@ func c19SetupErrors(c *Ctx) {
 	fe, _ := err.(*flags.Error)
 	if handlerCalls > 0 {
 		c.Violate("setup:"+kind+":completed-from-a-refused-declaration", "%s: the completion handler was called %d times although the declaration must be refused (error returned: %v)", kind, handlerCalls, err)
+		return
+	}
+	if findMissing {
+		c.Violate("setup:"+kind+":second-use-of-the-type-not-read", "%s: the option --%s of the second field of the same struct type is not in the model (no error was reported)", kind, wantFind)
 		return
 	}
 	if !wantErr && wantOptions >= 0 && via == "NewParser" && err == nil && gotOptions != wantOptions {
